@@ -3,7 +3,7 @@
 # Confirms a seeded change in a scratch worktree: the patch applies, the demo fails with it and passes
 # without it, and the repository's stable tests still pass with it. Writes /tmp/seeded/<id>/<name>/confirm.json
 ID="$1"; NAME="$2"; WT="$3"
-D="/tmp/seeded/$ID/$NAME"
+D="${SEEDED_ROOT:-/tmp/seeded}/$ID/$NAME"
 cd "$WT" || exit 2
 git checkout -q -- . ; git clean -fdq
 env PYTHONPATH="$WT" /venv/bin/python "$D/demo.py" > "$D/confirm_demo_clean.log" 2>&1; CLEAN=$?
